@@ -18,6 +18,7 @@ var (
 // RandomID returns randomly generated UUID with version 4 and variant 1.
 func RandomID() ID {
 	a, b := twoRandomUint63()
+	verifDrawn(a, b)
 	return ID{
 		Higher: ((a & 0xffffffffffff8000) << 1) | 0x0000000000004000 | (a & 0xfff),
 		Lower:  (b >> 1) | 0x8000000000000000,
@@ -27,5 +28,7 @@ func RandomID() ID {
 func twoRandomUint63() (uint64, uint64) {
 	randomMutex.Lock()
 	defer randomMutex.Unlock()
+	verifEnter()
+	defer verifExit()
 	return uint64(random.Int63()), uint64(random.Int63())
 }
